@@ -9,6 +9,7 @@ class C04(Prop):
     id = "C04"
     trace_module = "TraceClifford"
     trace_cfg = "TraceClifford.cfg"
+    suite_family = ('clifford', ('compose', 'inverse'))
     backends = ("py", "torch")
     chunk = 4000
     assumptions = [
